@@ -156,7 +156,8 @@ def handle (op : String) (args : Array String) : Option String :=
             | some names => names.contains sDest
             | none => rd == sDest)
           let sKeyValid := !dbErr && table.any (fun k => k.server == sOrigin && k.keyID == kid && k.pk == kidx && wasValidAt wallclock k now)
-          let acceptDemanded := pristine && sOwned && validServerName sOrigin && validServerName sDest && sKeyValid
+          -- (a body that is not valid UTF-8 is to be refused even when it is the signed one: the sender's fault)
+          let acceptDemanded := pristine && !badBody && sOwned && validServerName sOrigin && validServerName sDest && sKeyValid
           let sOut :=
             if m.isEmpty then "unspecified:empty-method"
             else if !kidInGrammar then "unspecified:key-id-outside-grammar"
